@@ -329,6 +329,22 @@ theorem do_mark_iff (c : Cfg) (r : JTree × St) :
 example : (finish { masks := [], gField := ka, gValue := kb } (.obj [], { applied := true })).root
     = .obj [(ka, .str kb)] := by rfl
 
+/-- **`Do` end to end** (object event, general path, no per-mask `applied_field`): the event
+    after `Do` is the spec's event — every leaf through the masks the lists leave for its path —
+    plus `mask_applied_field` iff some mask applied, with the spec's metric increments.
+    (With per-mask `applied_field`s, and on the global-process_fields fast path, the order of the
+    root writes is tied to the code by the correspondence runs only.) -/
+theorem do_event_spec (c : Cfg) (re : Oracle) (hok : LoopOk re 0 c.masks) (hn : NoMarks c)
+    (hfast : (c.hasGlobalProcess && !c.hasMaskSpecific) = false) (kvs : List (Bytes × JTree)) :
+    doEvent fixedImpl c re (.obj kvs) =
+      match specTree c re [] (.obj kvs) with
+      | none => .error .oracleMiss
+      | some (t', ap) => .ok (finish c (t', addAp { counts := c.masks.map (fun _ => 0) } ap)) :=
+  doEvent_eq c re hok hn hfast kvs
+
+example : (doEvent fixedImpl wListCfg wCutRe wListEvent).map (·.root)
+    = .ok (.obj [(ka, .obj [(kb, .str [107]), (kc, .str [42, 42, 42, 42, 42, 42])])]) := by rfl
+
 /-! ## 4. No event content can make the action panic (also serves C13) -/
 
 /-- `Do` of the repaired plugin: for every configuration, every event and every well-shaped
